@@ -1,6 +1,7 @@
 package main
 
 import (
+	"bufio"
 	"encoding/json"
 	"flag"
 	"fmt"
@@ -254,6 +255,44 @@ func init() {
 			c.Seed = sub
 			c10Run(c)
 			emit(c)
+		}
+	}
+}
+
+// c10json: load a machine file, apply edits through the API, report the resulting topology (used to compare what
+// cmd/bondmachine's edit flags do to a file with the same edits made through the API)
+func init() {
+	commands["c10json"] = func(args []string) {
+		sc := bufio.NewScanner(os.Stdin)
+		sc.Buffer(make([]byte, 1<<20), 1<<28)
+		for sc.Scan() {
+			var q struct {
+				JSON string  `json:"json"`
+				Ops  []c10Op `json:"ops"`
+			}
+			if err := json.Unmarshal(sc.Bytes(), &q); err != nil {
+				panic(err)
+			}
+			var st c10State
+			func() {
+				defer func() {
+					if r := recover(); r != nil {
+						st = c10State{Outcome: "panic: " + fmt.Sprint(r)}
+					}
+				}()
+				bmj := new(bondmachine.Bondmachine_json)
+				if err := json.Unmarshal([]byte(q.JSON), bmj); err != nil {
+					st = c10State{Outcome: "unmarshal: " + err.Error()}
+					return
+				}
+				bm := bmj.Dejsoner()
+				oc := "loaded"
+				for _, o := range q.Ops {
+					oc = c10Apply(bm, o)
+				}
+				st = c10Snapshot(bm, oc)
+			}()
+			emit(st)
 		}
 	}
 }
